@@ -92,13 +92,18 @@ theorem C06_message_trip_usb (cfg : Config) (st : State) (m : MsgIn) (seq seq' :
 /-- **Actisense**: the one line, once the gateway's `A<sec>.<ms>` token is prepended, is accepted and carries
 the message's own PGN, addressing, priority and the whole payload (an empty payload included) -/
 theorem C06_message_trip_actisense (m : MsgIn) (line : List Char)
-    (hp : m.prio < 16) (hd : m.dst < 256) (hs : m.src < 256) (hg : m.pgn < 2 ^ 24)
     (he : encodeActisense shippedEnc m = .ok line) :
     ∃ B, callEncode shippedEnc m = .ok B ∧
       Wire.decodeActisense ("A000001.000 ".toList ++ line) =
         .ok { pgn := m.pgn, prio := m.prio, src := m.src, dst := m.dst, data := B } := by
-  obtain ⟨B, hB, rfl⟩ := encodeActisense_inv shippedEnc m line he
-  exact ⟨B, hB, Wire.C06_actisense_rt m.prio m.dst m.src m.pgn B hp hd hs hg (callEncode_mk_bytes _ _ _ m B hB)⟩
+  obtain ⟨⟨hp, hs, hg, hd⟩, B, hB, rfl⟩ := encodeActisense_inv shippedEnc m line he
+  exact ⟨B, hB, Wire.C06_actisense_rt m.prio m.dst m.src m.pgn B (by omega) (by omega) (by omega) (by omega) (callEncode_mk_bytes _ _ _ m B hB)⟩
+
+/-- out-of-range addressing is refused by the Actisense encoder exactly as by the three CAN formats -/
+theorem C06_actisense_rejects_out_of_range (L : EncLayer) (m : MsgIn)
+    (h : 7 < m.prio ∨ 255 < m.src ∨ 0x3FFFF < m.pgn ∨ 255 < m.dst) :
+    encodeActisense L m = .raised ∧ ∀ seq, encodeFrames L seq m = .raised := by
+  simp [encodeActisense, encodeFrames, h]
 
 /-- the sequence counter advances by one (mod 8) per fast-packet message and not at all otherwise; a refused
 message leaves it unchanged by construction (`Res.raised` carries no counter) -/
